@@ -77,9 +77,11 @@ def register(claim):
         'with reason and multiplicity; the gradient-safe helpers (safe_norm, normalize, safe_arccos/'
         'arcsin JVPs, inv_3x3, orthogonals) are compared with their contracts by algebraic value '
         'numbering.  Decides "no singular primitive is reachable unguarded" for all models/states; '
-        'a deleted or non-positive guard is reported at file:line.',
+        'a deleted or non-positive guard is reported at file:line.  R3.5: the derivative of the free-joint '
+        'quaternion integration at zero angular velocity is the derivative of the exponential map, decided over '
+        'dual numbers with the epsilon guards read as a formal infinitesimal (Laurent series).',
         'Trusted: python ast, name-based call-graph over-approximation, exception table '
-        'specs/c03_exceptions.json.  Not decided: equality with finite differences (numeric); NaN '
+        'specs/c03_exceptions.json.  Not decided: equality with finite differences elsewhere (numeric); NaN '
         'through unselected where-arms at switching points (excluded by the property).',
         'denominator/root-argument classification over the call graph + AVN helper contracts',
         'DESIGN.md §3 C03')
@@ -124,7 +126,9 @@ def register(claim):
         'form) to the path taken by a model without contact pairs / without limits, including the '
         'quaternion renormalisation.  Push-only: the normal impulse / PBD correction is '
         'lambda*(-frame[0]) on link 1 and its negative on link 2 with lambda gated positive; the '
-        'generalized solver projects onto x >= 0.',
+        'generalized solver projects onto x >= 0.  R6.5: for a central (sphere) contact the spring impulse changes '
+        'the normal velocity of the contact point by c (-(1+e) v_n - erp/dt dist) with one constant c within 1e-3 of '
+        '1; R6.6: limits whose range excludes 0 are inert for a system at rest inside them (one step from rest).',
         'Trusted: python ast, AVN normal form with gate-preserving widening, scenario substitution, '
         'opaque contracts for contact.get / joint-frame helpers / point_jacobian / _imp_aref.  Not '
         'decided: resting height, sink depth, rebound ratio (numeric histories); inertness of the '
@@ -140,11 +144,13 @@ def register(claim):
         'equals previous + total mass x gravity x dt as an identity, decided by random '
         'interpretation (images of the normal forms in GF(2^61-1): an identity of polynomials holds '
         'in every trial, a non-identity is refuted with probability > 1 - 1e-15 per trial), plus '
-        'exact polynomial leaf laws for the PBD pair kernels and one-effective-mass provenance.',
+        'exact polynomial leaf laws for the PBD pair kernels and one-effective-mass provenance.  R4.5 (first law): '
+        'init + one step of all three pipelines from a consistent state at rest inside symbolic joint ranges that '
+        'do not contain 0 returns zero velocities and unchanged poses.',
         'Trusted: python ast, AVN interpreter and primitive table, opaque contracts for the branchy '
         'trigonometric joint-frame helpers and the trailing joint-coordinate read-back (momentum does '
-        'not depend on them), finite intermediate values.  Not decided: exact rest (first law) at '
-        'arbitrary rest poses; multi-body contact averaging; conservation to round-off as a number.',
+        'not depend on them), finite intermediate values.  Not decided: rest over more than one step and for the positional 2-dof '
+        'kernel; multi-body contact averaging; conservation to round-off as a number.',
         'algebraic value numbering of the whole step, decided by random interpretation in GF(p)',
         'DESIGN.md §3 C04')
 
@@ -217,7 +223,8 @@ def register(claim):
         'for every link, world linear and angular velocities for links attached by free / single '
         'hinge / single slide joints at the link origin.  Equality of the rational functions of all '
         'model parameters, q and qd is decided by random interpretation in GF(2^61-1) with unit '
-        'quaternions / axes by construction.',
+        'quaternions / axes by construction.  The kinematic description the loader builds (link frames, joint '
+        'anchors, dof axes, tree) equals the reference built from the mjModel (load_model abstractly executed).',
         'Trusted: python ast, AVN interpreter, reference kinematics braxlint/refkin.py, normalize '
         'contract.  The MuJoCo binary is not run; velocities of stacked / offset-anchor links are the '
         'documented upstream limitation and are not claimed.',
